@@ -137,7 +137,7 @@ def run(ctx, args):
     thorough = ctx.tier == "thorough"
     shapes = universe.enumerate_shapes(ctx, 1)
     if not thorough:
-        step = 3
+        step = 2
         shapes = shapes[(ctx.seed % step)::step]
     shapes = shapes + deep_payloads()
     old, new, fams = build_programs(shapes, ["optional", "default"])
@@ -268,7 +268,7 @@ def run(ctx, args):
     if rows:
         ctx.sample({"chain": rows[len(rows) // 2]})
     return ctx.finish(
-        rule="families = TLC-enumerated type shapes (every 3rd in quick, seed-rotated; all in thorough) + 3 deep payloads x "
+        rule="families = TLC-enumerated type shapes (every 2nd in quick, seed-rotated; all in thorough) + 3 deep payloads x "
              "{optional, default} x {top-level field, nested-struct field (as field, list element, map value), union member}; "
              "values = the rich value with every value of the added field; both directions; with and without "
              "keep_unknown_fields; distinct class = (direction, edit position, requiredness, added type, keep)",
